@@ -5,6 +5,7 @@ package main
 
 import (
 	"bytes"
+	"encoding/hex"
 	"fmt"
 	"net/netip"
 	"os"
@@ -18,6 +19,7 @@ import (
 	"github.com/IrineSistiana/mosproxy/internal/verifhook"
 
 	"github.com/IrineSistiana/mosproxy/verif/internal/clock"
+	"github.com/IrineSistiana/mosproxy/verif/internal/fakeredis"
 	"github.com/IrineSistiana/mosproxy/verif/internal/gen"
 	"github.com/IrineSistiana/mosproxy/verif/internal/racelog"
 	"github.com/miekg/dns"
@@ -25,7 +27,7 @@ import (
 
 func init() {
 	register(&Check{ID: "C07", Level: "exploration",
-		Rule: "(a) concurrent E2E history on few keys x client groups (ip ranges incl. same label on two ranges, boundary addresses, v6 via DoH header) over several lifetimes, checked for key integrity, group isolation, equality modulo TTL/ID and hit-required; (b) sequential key-component pairs (one component changed => miss, equivalent => hit); (c) MemoryCache histories under eviction with injected delay checked by porcupine against a bag-register model; (d) range tables vs linear scan; (e) in-process overwrite stress and concurrent lookups of live entries (all must hit), keys and values passed to Store in pooled buffers that are overwritten and released right afterwards; pairs include replies beyond 64 KiB uncompressed compared with their first relay; " +
+		Rule: "(a) concurrent E2E history on few keys x client groups (ip ranges incl. same label on two ranges, boundary addresses, v6 via DoH header) over several lifetimes, checked for key integrity, group isolation, equality modulo TTL/ID and hit-required; (b) sequential key-component pairs (one component changed => miss, equivalent => hit); (c) MemoryCache histories under eviction with injected delay checked by porcupine against a bag-register model; (d) range tables vs linear scan; (e) in-process overwrite stress and concurrent lookups of live entries (all must hit), keys and values passed to Store in pooled buffers that are overwritten and released right afterwards; two proxies sharing a redis that takes writes slowly (the second one is asked every question the first one stored in a burst); pairs include replies beyond 64 KiB uncompressed compared with their first relay; " +
 			"one evaluation = one response / one history / one table; distinct non-trivial = distinct (part, key or variant kind, group, cached?) combinations",
 		Run: runC07})
 }
@@ -44,6 +46,8 @@ func runC07(c *Ctx) {
 		switch only {
 		case "stress":
 			c07Stress(c)
+		case "rediskeys":
+			c07RedisKeys(c)
 		case "callerbufs":
 			c07CallerBuffers(c)
 		case "hits":
@@ -66,7 +70,7 @@ func runC07(c *Ctx) {
 	go func() { defer wg.Done(); c07ManyLabels(c) }()
 	go func() { defer wg.Done(); c07Pairs(c) }()
 	go func() { defer wg.Done(); c07History(c) }()
-	go func() { defer wg.Done(); c07LateRepeat(c) }()
+	go func() { defer wg.Done(); c07LateRepeat(c); c07RedisKeys(c) }()
 	wg.Wait()
 	c07Porcupine(c)
 	c07Stress(c)
@@ -798,5 +802,83 @@ func c07ManyLabels(c *Ctx) {
 	res := b.Stop()
 	if !alive {
 		c.Violation("proxy-died", "the proxy died in the many-labels scenario: "+res.Panic, map[string]any{"panic": res.Panic})
+	}
+}
+
+// c07RedisKeys: a second-level cache (redis) that is slow to take writes. Proxy A answers a burst of
+// 24 different questions (its stores queue up behind SETs that take 120 ms each); a second proxy B
+// with an empty memory cache and the same redis is then asked every question: whatever B serves - from
+// redis or fetched anew - must be the keyed answer to that very question. An entry stored under
+// another question's key shows up as a foreign answer here.
+func c07RedisKeys(c *Ctx) {
+	rs, err := fakeredis.Start()
+	if err != nil {
+		c.Inconclusive("fake redis: " + err.Error())
+		return
+	}
+	defer rs.Close()
+	mk := func(name string) (*Bed, error) {
+		return NewBed(c, name, BedOpts{Upstreams: []string{"pipe"}, MemSize: 8 << 20, Redis: rs.Addr(), Listeners: []string{"udp", "tcp"}})
+	}
+	a, err := mk("rkeysA")
+	if err != nil {
+		c.startFailure(err, "c07-rediskeys-A")
+		return
+	}
+	defer a.Stop()
+	b, err := mk("rkeysB")
+	if err != nil {
+		c.startFailure(err, "c07-rediskeys-B")
+		return
+	}
+	defer b.Stop()
+	b.Up["pipe"].SetSerialBase(1 << 20)
+	time.Sleep(1800 * time.Millisecond) // the proxies connect to redis in the background
+	rs.SetDelayMs.Store(120)
+	const n = 24
+	names := make([]string, n)
+	var wg sync.WaitGroup
+	for i := 0; i < n; i++ {
+		// names of one length (the keys have one size), nx and positive answers alternating
+		names[i] = fmt.Sprintf("%s-n2-ttl300-rk%02dx%d.pipe.test.", []string{"ok", "nx"}[i%2], i, c.Seed%10)
+		wg.Add(1)
+		go func(i int) {
+			defer wg.Done()
+			a.Exchange("tcp", mkQuery(uint16(i+1), names[i], dns.TypeA, dns.ClassINET, false), xOpts{Timeout: 5 * time.Second})
+		}(i)
+	}
+	wg.Wait()
+	time.Sleep(time.Duration(n*120+600) * time.Millisecond) // every queued SET has been taken
+	rs.SetDelayMs.Store(0)
+	fromRedis := 0
+	for i := 0; i < n; i++ {
+		x := b.Exchange("tcp", mkQuery(uint16(100+i), names[i], dns.TypeA, dns.ClassINET, false), xOpts{Timeout: 5 * time.Second})
+		c.Ev.Eval(1)
+		m := new(dns.Msg)
+		if x.Err != nil || m.Unpack(x.Resp) != nil {
+			c.Inconclusive("redis keys: no response from the second proxy")
+			continue
+		}
+		serial, err := CheckKeyed(dns.Question{Name: names[i], Qtype: dns.TypeA, Qclass: dns.ClassINET}, "pipe", m)
+		if err != nil {
+			c.Violation("redis:answer-stored-under-another-key", fmt.Sprintf("question %s asked at the second proxy (shared redis, empty memory cache) was answered with something else: %v - the first proxy had stored another question's answer under this question's key while redis was slow to take writes", names[i], err),
+				map[string]any{"fn": "c07RedisKeys", "name": names[i], "response_hex": hex.EncodeToString(x.Resp[:min(len(x.Resp), 160)])})
+			return
+		}
+		if serial < 1<<20 {
+			fromRedis++
+		}
+		c.Ev.Distinct("redis-keys", i%2, serial < 1<<20)
+	}
+	c.Ev.Count("redis_keys_served_from_the_shared_cache", int64(fromRedis))
+	c.Ev.Count("redis_keys_sets", rs.Sets.Load())
+	c.Ev.Count("redis_keys_gets", rs.Gets.Load())
+	switch {
+	case fromRedis == 0 && rs.Sets.Load() >= 20 && rs.Gets.Load() >= 20:
+		// the first proxy wrote 24 entries with 300 s of lifetime, the second looked 24 keys up: not one was found
+		c.Violation("redis:stored-entries-not-found", fmt.Sprintf("the first proxy stored %d answers (ttl 300) in the shared redis, the second proxy looked %d keys up for the same questions seconds later and found none of them: the entries were not stored under the keys of their questions", rs.Sets.Load(), rs.Gets.Load()),
+			map[string]any{"fn": "c07RedisKeys", "sets": rs.Sets.Load(), "gets": rs.Gets.Load()})
+	case fromRedis == 0:
+		c.Inconclusive("redis keys: nothing was served from the shared cache")
 	}
 }
